@@ -269,11 +269,13 @@ def pure_scipy_reaches(case, xstar, tol):
                 h = float(hi[j]) if hi is not None and hi[j] < INF else np.inf
             if opt == 'trust-constr':
                 cons.append(NonlinearConstraint(lambda x, a=a: a.dot(x), l, h, jac=lambda x, a=a: a.reshape(1, -1)))
+            elif eq is not None:
+                cons.append({'type': 'eq', 'fun': lambda x, a=a, l=l: a.dot(x) - l, 'jac': lambda x, a=a: a})
             else:
                 if np.isfinite(l):
-                    cons.append({'type': 'ineq', 'fun': lambda x, a=a, l=l: a.dot(x) - l})
+                    cons.append({'type': 'ineq', 'fun': lambda x, a=a, l=l: a.dot(x) - l, 'jac': lambda x, a=a: a})
                 if np.isfinite(h):
-                    cons.append({'type': 'ineq', 'fun': lambda x, a=a, h=h: h - a.dot(x)})
+                    cons.append({'type': 'ineq', 'fun': lambda x, a=a, h=h: h - a.dot(x), 'jac': lambda x, a=a: -a})
     dv = case['dv']
     dlo, dhi = bnd(dv['lower'], n), bnd(dv['upper'], n)
     bounds = None
@@ -302,6 +304,12 @@ def pure_scipy_reaches(case, xstar, tol):
 def qinf(v):
     v = float(v)
     return None if np.isinf(v) else q(v)
+
+
+def qbig(v):
+    """a value formed with a +-1e30 sentinel is not exact in binary64: not compared"""
+    v = float(v)
+    return None if abs(v) >= 1e29 else q(v)
 
 
 def describe(constraints):
@@ -351,9 +359,9 @@ def handle(case):
                     if case['opt'] != 'COBYLA':
                         g0 = [q(float(v)) for v in np.asarray(drv._congradfunc(xs, 'g%d' % i, False, j)).ravel()]
                         g1 = [q(float(v)) for v in np.asarray(drv._congradfunc(xs, 'g%d' % i, True, j)).ravel()]
-                        rowp.append([q(float(v0)), q(float(v1)), g0, g1])
+                        rowp.append([qbig(v0), qbig(v1), g0, g1])
                     else:
-                        rowp.append([q(float(v0)), q(float(v1))])
+                        rowp.append([qbig(v0), qbig(v1)])
                 probes.append(rowp)
         except Exception as e:   # noqa
             probes = {'e': 1}
@@ -428,11 +436,12 @@ def handle(case):
         if np.max(np.abs(xs_ - xmod)) > tol_x * max(1.0, np.max(np.abs(xs_))):
             # SciPy's `success` is not always a claim of optimality (trust-constr: xtol termination;
             # COBYLA: final trust-region radius, no optimality measure at all).  The miss is attributed
-            # to the driver when the optimizer carries its own optimality certificate (SLSQP;
-            # trust-constr status 1) or when plain SciPy trust-constr, given the same QP directly,
-            # does reach the optimum.  For COBYLA the optimum clause is only recorded.
-            certified = case['opt'] == 'SLSQP' or (case['opt'] == 'trust-constr' and getattr(r, 'status', 0) == 1)
-            if certified or (case['opt'] == 'trust-constr' and pure_scipy_reaches(case, xs_, tol_x)):
+            # to the driver when the optimizer carries its own optimality certificate (trust-constr
+            # status 1) or when plain SciPy (SLSQP / trust-constr), given the same QP directly with the
+            # same settings, does reach the optimum (SLSQP itself stalls on linearly dependent active
+            # constraints and still reports success).  For COBYLA the optimum clause is only recorded.
+            certified = case['opt'] == 'trust-constr' and getattr(r, 'status', 0) == 1
+            if certified or (case['opt'] != 'COBYLA' and pure_scipy_reaches(case, xs_, tol_x)):
                 problems.append(('C21:not-the-optimum',
                                  'success reported by %s at x=%s but the exact KKT optimum is %s' % (
                                      case['opt'], xmod.tolist(), [str(v) for v in xstar])))
